@@ -1,4 +1,6 @@
 import NbdimeProofs.Lemmas.LcsMatching
+import NbdimeProofs.Lemmas.WfDiff
+import NbdimeProofs.Properties.C02
 /-
   C11 — every produced diff is well-formed for its base document. `wf` (NbdimeModel/WF.lean) is the
   decidable predicate the check runs on every diff the implementation produces. Proved here: the
@@ -102,5 +104,22 @@ theorem C11_wf_shallow_list (cmp : J → J → Except Err Bool) (hstrict : ∀ x
 /-- non-vacuity -/
 example : wf (.arr [.int 1, .int 2, .int 3]) [.addrange 1 [.int 9], .removerange 1 1] = true := by
   rw [wf, wfList, wfList, wfList]; decide
+
+
+/-- **C11 for the model of the whole generic differ** (lists, objects, strings down to the character
+    level, any depth, any answer of the similarity predicates): the diff `diffGeneric` returns is
+    well-formed for the base document. Hypotheses as in `C02_roundtrip_partial` (canonical keys,
+    compatible documents, difflib's opcode contract — the last one evaluated by the driver on every
+    recorded answer). -/
+theorem C11_generic_wf (O : Oracle) (hO : OracleOK O) (a b : J) (d : List Op)
+    (ca : a.canonical = true) (cb : b.canonical = true) (hab : Compat a b)
+    (h : diffGeneric O a b = .ok d) : wf a d = true :=
+  diffAt_generic_wf O hO bigFuel "" a b d ca cb hab h
+
+/-- non-vacuity: the nested example pair of C02 (list insertion, dict change, string edit; the differ does return a
+    diff for it, see Properties/C02.lean) meets every hypothesis, so its diff is well-formed -/
+example : ∀ d, diffGeneric exOracle exA exB = .ok d → wf exA d = true := fun d h =>
+  C11_generic_wf exOracle exOracle_ok exA exB d (by decide +kernel) (by decide +kernel)
+    (compat_ints exA exB (by decide +kernel) (by decide +kernel)) h
 
 end Nbdime
